@@ -530,18 +530,24 @@ impl Query {
     }
 
     pub(crate) fn get_selection(&self, id: SelectionId) -> &Selection {
+        #[cfg(graphql_client_verif)]
+        crate::verif_hooks::yield_point("query.get_selection");
         self.selections
             .get(id.0 as usize)
             .expect("Query.get_selection")
     }
 
     pub(crate) fn get_fragment(&self, id: ResolvedFragmentId) -> &ResolvedFragment {
+        #[cfg(graphql_client_verif)]
+        crate::verif_hooks::yield_point("query.get_fragment");
         self.fragments
             .get(id.0 as usize)
             .expect("Query.get_fragment")
     }
 
     pub(crate) fn get_operation(&self, id: OperationId) -> &ResolvedOperation {
+        #[cfg(graphql_client_verif)]
+        crate::verif_hooks::yield_point("query.get_operation");
         self.operations
             .get(id.0 as usize)
             .expect("Query.get_operation")
